@@ -224,13 +224,14 @@ class odict(dict):
             self._keys.remove(key)
         return value
 
-    def popitem(self):
+    def popitem(self, last=True):
         """
         Remove and return last item (key, value) duple
+        If last is False remove and return first item instead
         If odict is empty raise KeyError
         """
         try:
-            key = self._keys[-1]
+            key = self._keys[-1 if last else 0]
         except IndexError:
             raise KeyError('Empty odict.')
         value = dict.__getitem__(self, key)
@@ -517,7 +518,7 @@ class modict(odict):
             to be returned.
         """
         try:
-            val = self[key][index]
+            val = super(modict, self).__getitem__(key)[index]
             return kind(val) if kind else val
         except Exception:
             pass
@@ -629,7 +630,7 @@ class modict(odict):
                 for k, v in a.iterallitems():
                     self.append(k, v)
             elif hasattr(a, 'get'): #positional arg is dictionary
-                for k, v in a.iteritems():
+                for k, v in a.items():
                     self.append(k, v)
             else: #positional arg is sequence of duples (k,v)
                 for k, v in a:
